@@ -234,6 +234,11 @@ def huge_window_case(ctx):
 
 def run_shard(ctx):
     conf = TIERS[ctx.tier]
+    if ctx.shard == ctx.nshards - 1 and not ctx.replay:
+        # the repository's own 579 tests as one more workload, with the passive split() monitor riding on every call they make
+        from .. import repotests
+
+        repotests.run(ctx, "split")
     if ctx.shard == 3:
         huge_window_case(ctx)
     rng = ctx.rng("cases")
@@ -253,4 +258,4 @@ def inconclusive(merged, tier):
     return [f"monitor never observed {k}" for k in
             ("regions_observed", "regions_expected", "api_function", "api_method", "api_method_on_region_with_start", "api_function_on_region_with_start", "huge_window_cases", "api_raw_file_lazy", "api_wav_file_lazy", "api_used_buffer_source", "api_used_reader", "api_stdin_pipe", "api_recorder_second_pass", "api_region_with_conflicting_audio_kwargs", "api_split_and_plot", "cases_threshold_zero", "nested_splits", "width_1", "width_2", "width_4",
              "channels_1", "channels_2", "channels_3", "cases_with_partial_last_window", "regions_ending_in_partial_window",
-             "cases_nonintegral_window") if c.get(k, 0) == 0]
+             "cases_nonintegral_window", "repo_tests_split_regions_checked") if c.get(k, 0) == 0]
